@@ -43,7 +43,8 @@ class C11(Prop):
                    "Model.Memory Spec.FragSpec Model.FragCase.")
     HARNESS_BINS = ("scan",)
     KF = {1: "C11-region-order"}
-    RULE = ("one text string (any modifier shape) scanned over layouts of 0-6 regions: gaps, adjacency, empty regions, "
+    RULE = ("one string (3/4 a text string of any modifier shape, fully modelled; 1/4 a hex / regex string with a "
+            "reverse validator or no atom, compared with the per-region scans only) scanned over layouts of 0-6 regions: gaps, adjacency, empty regions, "
             "needles straddling a boundary, a match at offset 0 right after a region ending with a match, described "
             "length longer or shorter than the fetched bytes, every subset of failing fetches (sampled), ascending and "
             "(for the recorded finding) non-ascending delivery order, the three fragmented scan modes; per case 4-9 "
@@ -76,6 +77,10 @@ class C11(Prop):
         return out
 
     # ---------------------------------------------------------------- generation
+    OTHER = [("$a = /[0-9]abc/", [b"1abc", b"7abc", b"abc"]), ("$a = { ?? 62 63 64 }", [b"abcd", b"\x00bcd", b"bcd"]),
+             ("$a = /x[a-z]{0,3}yy/", [b"xyy", b"xabyy", b"xabcyy", b"yy"]), ("$a = /[a-c]{2}/", [b"ab", b"ca", b"bbb"]),
+             ("$a = /ab+c/", [b"abc", b"abbbc", b"ac"])]
+
     def gen_case(self, rng):
         d = gen_decl(rng)
         if d["xor"] is not None and d["xor"][1] - d["xor"][0] > 5:
@@ -83,6 +88,9 @@ class C11(Prop):
         if len(d["text"]) > 20:
             d["text"] = d["text"][:20]
         encs = [e[:30] for e, _ in encodings(d)] or [bytes.fromhex(d["text"])]
+        raw_decl = None
+        if rng.chance(1, 4):      # a hex / regex string: spec-only for the match list
+            raw_decl, encs = rng.choice(self.OTHER)
         nreg = rng.choice([0, 1, 2, 2, 3, 3, 4, 5, 6])
         addr = rng.choice([0, 0, 3, 64, 4096, (1 << 32) + 5, (1 << 62) - 40])
         regions = []
@@ -143,7 +151,7 @@ class C11(Prop):
                 probes.append({"t": "uint", "n": rng.choice([1, 2, 4]), "x": addr_near()})
             else:
                 probes.append({"t": "cs", "x": addr_near(), "n": rng.choice([1, 2, 3, 5, 8, 20, 70, 200])})
-        return {"decl": d, "regions": regions, "mode": mode, "probes": probes, "order": order,
+        return {"decl": d, "raw_decl": raw_decl, "regions": regions, "mode": mode, "probes": probes, "order": order,
                 "profile": rng.choice(["speed", "memory"]), "params": {}}
 
     def generate(self, ctx, rng, n):
@@ -156,7 +164,8 @@ class C11(Prop):
     def execute(self, ctx, cases):
         frag, per, index = [], [], []
         for ci, c in enumerate(cases):
-            decl = decl_yara("a", c["decl"])
+            decl = c.get("raw_decl") or decl_yara("a", c["decl"])
+            ctx.count("string=%s" % ("text" if not c.get("raw_decl") else "hex/regex"))
             p = dict(c.get("params", {}))
             p.update({"compute_full_matches": True, "include_not_matched": True, "mode": c["mode"]})
             src = 'import "hash" import "console" rule r { strings: %s condition: #a >= 0 } ' % decl
@@ -201,6 +210,11 @@ class C11(Prop):
                 v = logs.get(i)
                 results.append("RInt %s" % ("None" if v is None or v < 0 else "(Some %d)" % v))
         per = glist(glist(g_smatch(m) for m in string_matches(o, "r", "a")) for o in out["per"])
+        if case.get("raw_decl"):
+            return "C11_case_other %s %s %s %s %s %s %s" % (
+                g_prm(case.get("params", {})), gbool(case["mode"] == "legacy"),
+                g_regions(case["regions"]), per, glist(g_smatch(m) for m in t),
+                glist(g_probe(p) for p in case["probes"]), glist(results))
         return "C11_case %s %s %s %s %s %s %s %s" % (
             g_decl(case["decl"]), g_prm(case.get("params", {})), gbool(case["mode"] == "legacy"),
             g_regions(case["regions"]), per, glist(g_smatch(m) for m in t),
@@ -218,7 +232,7 @@ class C11(Prop):
 
     def sample(self, case, out):
         f = out.get("frag")
-        return {"decl": decl_yara("a", case["decl"]), "regions": case["regions"], "mode": case["mode"],
+        return {"decl": case.get("raw_decl") or decl_yara("a", case["decl"]), "regions": case["regions"], "mode": case["mode"],
                 "probes": case["probes"],
                 "matches": string_matches(f, "r", "a")[:6] if isinstance(f, dict) and "rules" in f else f,
                 "logs": f.get("logs") if isinstance(f, dict) else None}
